@@ -38,8 +38,8 @@ HasM(e) == e.ev = "Poll" /\ "mpre" \in DOMAIN e
 
 Rec == ndJsonDeserialize(IOEnv.TRACE)
 
-VARIABLES l, rs, bad, cov, dead, deadc, runs, conf, drift
-vars == <<l, rs, bad, cov, dead, deadc, runs, conf, drift>>
+VARIABLES l, rs, bad, cov, dead, deadc, deadp, runs, conf, drift
+vars == <<l, rs, bad, cov, dead, deadc, deadp, runs, conf, drift>>
 
 (* clauses whose violation does not disturb the monitor's tracking of the wire: the run is judged
    further (each such clause is reported once per run); any other violation ends the judgement of
@@ -49,7 +49,7 @@ LocalClauses == {"C12.cadence", "C12.range", "C12.reply.state", "C12.reply.when"
 
 NoCfg == [none |-> TRUE]
 
-TInit == l = 1 /\ rs = NoCfg /\ bad = <<>> /\ cov = [c \in AllClauses |-> 0] /\ dead = TRUE /\ deadc = {} /\ runs = 0 /\ conf = [n |-> 0, ok |-> 0] /\ drift = <<>>
+TInit == l = 1 /\ rs = NoCfg /\ bad = <<>> /\ cov = [c \in AllClauses |-> 0] /\ dead = TRUE /\ deadc = {} /\ deadp = {} /\ runs = 0 /\ conf = [n |-> 0, ok |-> 0] /\ drift = <<>>
 
 TNext ==
   /\ l <= Len(Rec)
@@ -63,17 +63,21 @@ TNext ==
               LET r == M!DoPoll(MeOf(rs.cfg, e), StateOfJson(e.mpre), e.in) IN
               PrintT(<<"DRIFT", l, "model", Canon(r.s), r.tx, r.cbs, "real", StateOfJson(e.mpost), e.mtx, e.mcbs>>)
   /\ LET e == Rec[l] IN
-     IF e.ev = "Cfg" THEN rs' = RuleInit(e) /\ dead' = FALSE /\ deadc' = {} /\ runs' = runs + 1 /\ UNCHANGED <<bad, cov>>
-     ELSE IF e.ev = "Reset" THEN dead' = TRUE /\ UNCHANGED <<rs, bad, cov, runs, deadc>>
-     ELSE IF dead THEN UNCHANGED <<rs, bad, cov, dead, deadc, runs>>
-     ELSE LET r == RuleStep(rs, e) IN
-          /\ rs' = r.rs
-          /\ cov' = [c \in AllClauses |-> cov[c] + Cardinality({i \in DOMAIN r.hits : r.hits[i] = c})]
-          /\ runs' = runs
-          /\ IF r.clause = "ok" \/ r.clause \in deadc THEN UNCHANGED <<bad, dead, deadc>>
-             ELSE /\ bad' = Append(bad, [l |-> l, clause |-> r.clause, sig |-> r.sig])
-                  /\ dead' = (r.clause \notin LocalClauses)
-                  /\ deadc' = deadc \cup {r.clause}
+     IF e.ev = "Cfg" THEN rs' = RuleInit(e) /\ dead' = FALSE /\ deadc' = {} /\ deadp' = {} /\ runs' = runs + 1 /\ UNCHANGED <<bad, cov>>
+     ELSE IF e.ev = "Reset" THEN dead' = TRUE /\ UNCHANGED <<rs, bad, cov, runs, deadc, deadp>>
+     ELSE IF dead THEN UNCHANGED <<rs, bad, cov, dead, deadc, deadp, runs>>
+     ELSE LET r == RuleStep(rs, e)
+              \* a clause is reported once per run; a non-local violation ends the judgement of ITS property for the run
+              \* (no cascades inside a property); the clauses of the other properties go on being judged, so that the
+              \* check of each property sees its own rejections even when another property is rejected first
+              new == SelectSeq(r.all, LAMBDA c : c \notin deadc /\ PropOf(c) \notin deadp)
+          IN /\ rs' = r.rs
+             /\ cov' = [c \in AllClauses |-> cov[c] + Cardinality({i \in DOMAIN r.hits : r.hits[i] = c})]
+             /\ runs' = runs
+             /\ bad' = bad \o [i \in 1..Len(new) |-> [l |-> l, clause |-> new[i], sig |-> r.sig]]
+             /\ deadc' = deadc \cup {new[i] : i \in DOMAIN new}
+             /\ deadp' = deadp \cup {PropOf(new[i]) : i \in {j \in DOMAIN new : new[j] \notin LocalClauses}}
+             /\ dead' = (\E i \in DOMAIN r.all : r.all[i] \in {"C05.panic", "C05.hang"})
 
 TSpec == TInit /\ [][TNext]_vars
 
